@@ -1,6 +1,8 @@
 CONSTANTS
   Tier = "q"
   PointerReceiverMarshaller <- NoDeviation
+  NestingBound = 1000
+  CounterCountsElements = FALSE
   Families <- AllFamilies
 INIT Init
 NEXT Next
@@ -14,6 +16,7 @@ INVARIANTS
   MdFixedPoint
   MdPreserves
   EsdFixedPoint
+  NestingGuardKept
   GeneratedReparses
   SlotsRoundTrip
   ExactlyOneOutcome
